@@ -44,6 +44,7 @@ fn main() {
                 family: String::new(),
                 max_viols: args.num("max-viols", 40) as usize,
                 sample_every: 997,
+                per_sig: Default::default(),
                 leaks_ok_default: false,
                 digest_on: args.flag("digest"),
                 sampled: cfg!(miri) || args.flag("sample"),
